@@ -96,6 +96,56 @@ def guardQFromParts (d : Nat) : G := if d = 0 then .error .divideByZero else .ok
 /-- `RBig::nearest` / `next_up` / `next_down` (rational/src/simplify.rs:274, 309, 344): `limit.is_zero()` -/
 def guardQLimit (l : Nat) : G := if l = 0 then .error .divideByZero else .ok ()
 
+/-- `TypedReprRef::is_multiple_of_dword` (integer/src/div_ops.rs:653-657, after fix c27ca7f):
+    `if divisor == 0 { panic_divide_by_0() }` -/
+def guardIsMultipleOfConst (d : Nat) : G := if d = 0 then .error .divideByZero else .ok ()
+
+/-- `FBig::split_at_point` (float/src/round_ops.rs:83-84, after fix 65edb1e): `assert_finite(&self.repr)` -/
+def guardFSplitAtPoint (a : FArg) : G := assertFinite a
+
+/-- `align_as_int` of `DivEuclid / RemEuclid / DivRemEuclid for FBig` (float/src/div.rs:205-206, after fix 0ffa05d):
+    `assert_finite_operands`, then the integer euclidean division of the aligned significands (zero divisor:
+    `panic_divide_by_0` of the integer crate) -/
+def guardFEuclid (W : Nat) (a b : FArg) : G := do
+  assertFiniteOperands a b
+  guardDivByZero W b.signif.natAbs
+
+/-- `Context::powf` (float/src/exp.rs:173-189, after fix d9f681e): `assert_finite_operands(base, exp)`,
+    `assert_limited_precision`, the shortcuts `exp.is_zero()`, `exp.is_one()`, `base.is_zero()` return, then
+    `base.sign() == Negative` panics -/
+def guardFPowf (a b : FArg) : G := do
+  assertFiniteOperands a b
+  assertLimitedPrecision (max a.prec b.prec)
+  if b.signif = 0 then .ok ()                       -- exp.is_zero()  (finite)
+  else if b.signif = 1 ∧ b.exp = 0 then .ok ()       -- exp.is_one()
+  else if a.signif = 0 then .ok ()                   -- base.is_zero()
+  else if a.signif < 0 then .error .powNegativeBase
+  else .ok ()
+
+/-- `*x <= Repr::neg_one()` for a finite `x = signif · base^exp` (the comparison of float/src/cmp.rs at its
+    specification, by cross-multiplication) -/
+def leNegOne (a : FArg) : Bool :=
+  if a.exp ≥ 0 then a.signif * ((a.base ^ a.exp.toNat : Nat) : Int) ≤ -1
+  else a.signif ≤ -((a.base ^ (-a.exp).toNat : Nat) : Int)
+
+/-- `Context::ln_internal(x, one_plus = false)` (float/src/log.rs:225-241, after fix b0e87a3): `assert_finite`,
+    `assert_limited_precision`, shortcut `x.is_one()`, then `x.is_zero() || x.sign() == Negative` panics -/
+def guardFLn (a : FArg) : G := do
+  assertFinite a
+  assertLimitedPrecision a.prec
+  if a.signif = 1 ∧ a.exp = 0 then .ok ()
+  else if a.signif = 0 ∨ a.signif < 0 then .error .logInvalid
+  else .ok ()
+
+/-- `Context::ln_internal(x, one_plus = true)`: shortcut `x.is_zero()`, then
+    `x.sign() == Negative && *x <= Repr::neg_one()` panics -/
+def guardFLn1p (a : FArg) : G := do
+  assertFinite a
+  assertLimitedPrecision a.prec
+  if a.signif = 0 then .ok ()
+  else if a.signif < 0 ∧ leNegOne a then .error .logInvalid
+  else .ok ()
+
 /-- the mirrored guard of a call, for the ops that have one (same argument validation as `verdict`) -/
 def guardModel (W : Nat) : Op → List Arg → Option G
   | .uSub, [.int a, .int b] => if a < 0 ∨ b < 0 then none else some (guardUSub W a.natAbs b.natAbs)
@@ -116,6 +166,17 @@ def guardModel (W : Nat) : Op → List Arg → Option G
   | .uInRadix, [.int x, .dec r] => if x < 0 then none else some (if r < 0 then .error .invalidRadix else guardInRadix r.toNat)
   | .iInRadix, [.int _, .dec r] => some (if r < 0 then .error .invalidRadix else guardInRadix r.toNat)
   | .cdNew, [.int x] => if x < 0 then none else some (guardCdNew W x.natAbs)
+  | .uIsMultipleOfConst, [.int a, .int d] =>
+      if a < 0 ∨ d < 0 ∨ d ≥ 2 ^ (2 * W) then none else some (guardIsMultipleOfConst d.natAbs)
+  | .iIsMultipleOfConst, [.int _, .int d] =>
+      if d < 0 ∨ d ≥ 2 ^ (2 * W) then none else some (guardIsMultipleOfConst d.natAbs)
+  | .fDivEuclid, [.flt a, .flt b] | .fRemEuclid, [.flt a, .flt b] =>
+      if ¬ (a.canonical ∧ b.canonical ∧ sameKind a b) then none else some (guardFEuclid W a b)
+  | .fPowf, [.flt a, .flt b] =>
+      if ¬ (a.canonical ∧ b.canonical ∧ sameKind a b) then none else some (guardFPowf a b)
+  | .fSplitAtPoint, [.flt a] => if ¬ a.canonical then none else some (guardFSplitAtPoint a)
+  | .fLn, [.flt a] => if ¬ a.canonical then none else some (guardFLn a)
+  | .fLn1p, [.flt a] => if ¬ a.canonical then none else some (guardFLn1p a)
   | .fAdd, [.flt a, .flt b] | .fSub, [.flt a, .flt b] =>
       if ¬ (a.canonical ∧ b.canonical ∧ sameKind a b) then none else some (guardFAdd a b)
   | .fDiv, [.flt a, .flt b] =>
